@@ -2,9 +2,10 @@ import Stingray.Model.Facade
 /-!
 # C14 — workbooks are opened by suffix and always release their file
 
-Registry: `later_registration_wins`, `registration_is_local`, `unknown_suffix_refused`.
+Registry: `later_registration_wins`, `registration_is_local`, `unknown_suffix_refused`; over every history of
+registrations naming any number of suffixes: `registry_history`, `unrelated_registration_irrelevant`.
 Life cycle: `exit_releases` (whatever happened inside the with-block — any sequence of iterating and
-raising — after `__exit__` no handle on the workbook's file is held), `close_idempotent`.
+raising — after `__exit__` no handle on the workbook's file is held), `close_idempotent`, `exit_releases_forever`.
 
 **Partial.** The operating system's descriptor table and the handles third-party libraries hold
 internally are not in the model; `harness/c14.py` observes them through `/proc/self/fd` at every
@@ -65,6 +66,97 @@ theorem close_idempotent (w : WB) : lstep (lstep w .close) .close = lstep w .clo
 theorem close_after_exit (w : WB) (ops : List LOp) :
     lrun w (ops ++ [.exit, .close]) = lrun w (ops ++ [.exit]) := by
   simp [lrun, List.foldl_append, lstep]
+
+/-! ## the registry over ANY history of registrations (each naming any number of suffixes) -/
+
+/-- one `@file_suffix(*names)` registration: every named suffix now maps to the class, nothing else moves -/
+theorem lookup_register (r : Registry) (ss : List String) (c s : String) :
+    lookup s (register r ss c) = if ss.contains s then some c else lookup s r := by
+  induction ss generalizing r with
+  | nil => simp [register]
+  | cons a as ih =>
+    have h := ih (dictInsert r a c)
+    simp only [register, List.foldl_cons] at h ⊢
+    rw [h]
+    by_cases hs : s ∈ as
+    · simp [hs]
+    · by_cases ha : a = s
+      · subst ha; simp [hs, lookup_dictInsert_self]
+      · have hne : (a == s) = false := by simpa using ha
+        have hsa : ¬ s = a := fun h => ha h.symm
+        simp [hs, hsa, lookup_dictInsert_other _ _ _ _ hne]
+
+/-- a history of registrations on one registry object, oldest first -/
+def registerAll (r : Registry) (h : List (List String × String)) : Registry :=
+  h.foldl (fun r p => register r p.1 p.2) r
+
+/-- specification: the class of the LAST registration of the history that names the suffix -/
+def lastNaming (s : String) : List (List String × String) → Option String
+  | [] => none
+  | p :: rest =>
+    match lastNaming s rest with
+    | some c => some c
+    | none => if p.1.contains s then some p.2 else none
+
+theorem lookup_registerAll (r : Registry) (h : List (List String × String)) (s : String) :
+    lookup s (registerAll r h) = match lastNaming s h with | some c => some c | none => lookup s r := by
+  induction h generalizing r with
+  | nil => simp [registerAll, lastNaming]
+  | cons p rest ih =>
+    have h1 := ih (register r p.1 p.2)
+    simp only [registerAll, List.foldl_cons] at h1 ⊢
+    rw [h1, lastNaming]
+    cases hl : lastNaming s rest with
+    | some c => simp
+    | none => simp only [lookup_register]; split <;> simp_all
+
+/-- **C14 (registry, every history).** After ANY sequence of registrations — each naming any number of suffixes, in any
+order, repeated or not — on a registry that started empty, `open_workbook` of a suffix constructs the class of the last
+registration that names it, and refuses (`NotImplementedError`) exactly the suffixes no registration names. -/
+theorem registry_history (h : List (List String × String)) (s : String) :
+    openWorkbook (registerAll [] h) s =
+      match lastNaming s h with | some c => .opened c | none => .notImplemented := by
+  simp only [openWorkbook, lookup_registerAll]
+  cases lastNaming s h <;> simp [lookup]
+
+/-- a registration that does not name the suffix changes nothing for it, wherever it stands in the history -/
+theorem unrelated_registration_irrelevant (h₁ h₂ : List (List String × String)) (p : List String × String) (s : String)
+    (hp : p.1.contains s = false) :
+    openWorkbook (registerAll [] (h₁ ++ p :: h₂)) s = openWorkbook (registerAll [] (h₁ ++ h₂)) s := by
+  have key : ∀ h₁ : List (List String × String), lastNaming s (h₁ ++ p :: h₂) = lastNaming s (h₁ ++ h₂) := by
+    intro h₁
+    induction h₁ with
+    | nil => simp only [List.nil_append, lastNaming, hp]; cases lastNaming s h₂ <;> simp
+    | cons q qs ih => simp [lastNaming, ih]
+  rw [registry_history, registry_history, key]
+
+/-! ## the life cycle over ANY history: once left or closed, and not re-opened, no handle is held -/
+
+theorem released_stays_released (w : WB) (ops : List LOp) (hw : w.handles = 0 ∧ w.closed = true)
+    (hno : LOp.openFile ∉ ops) : (lrun w ops).handles = 0 ∧ (lrun w ops).closed = true := by
+  induction ops generalizing w with
+  | nil => simpa [lrun] using hw
+  | cons o os ih =>
+    simp only [List.mem_cons, not_or] at hno
+    have : (lstep w o).handles = 0 ∧ (lstep w o).closed = true := by
+      cases o <;> simp_all [lstep]
+    simpa [lrun] using ih (lstep w o) this hno.2
+
+/-- **C14 (always released, every history).** Whatever happens before `__exit__` and whatever is called on the workbook
+afterwards (iterating, raising, further `close()` / `__exit__`) short of constructing it anew: no handle is held. -/
+theorem exit_releases_forever (w : WB) (before after : List LOp) (hno : LOp.openFile ∉ after) :
+    (lrun w (before ++ [.exit] ++ after)).handles = 0 ∧ (lrun w (before ++ [.exit] ++ after)).closed = true := by
+  have h := exit_releases w before
+  have : lrun w (before ++ [.exit] ++ after) = lrun (lrun w (before ++ [.exit])) after := by
+    simp [lrun, List.foldl_append]
+  rw [this]
+  exact released_stays_released _ after h hno
+
+/-- non-vacuity: the harness's private registry (`.dat .csv` ↦ First, `.csv` ↦ Second, four suffixes ↦ Many) -/
+example : openWorkbook (registerAll [] [([".dat", ".csv"], "First"), ([".csv"], "Second"), ([".aa", ".bb", ".cc", ".dd"], "Many")]) ".csv"
+    = .opened "Second" := by decide
+example : lastNaming ".dat" [([".dat", ".csv"], "First"), ([".csv"], "Second")] = some "First" := by decide
+example : (lrun ⟨0, false⟩ ([.openFile, .iterate, .raise] ++ [.exit] ++ [.iterate, .close, .exit])).handles = 0 := by decide
 
 /-- non-vacuity: the module-level registrations of the library -/
 def libraryRegistry : Registry :=
